@@ -4,10 +4,13 @@ import glob, json, os, re, shutil, subprocess
 V = os.path.dirname(os.path.dirname(os.path.abspath(__file__)))
 head = subprocess.run(["git", "-C", "/repo", "rev-parse", "--short", "HEAD"], stdout=subprocess.PIPE, text=True).stdout.strip()
 rows = []
-for d in sorted(glob.glob("/tmp/wt/C*.out/seed*")):
+import sys
+ROOT = sys.argv[1] if len(sys.argv) > 1 else "/tmp/wt"
+TAG = {"/tmp/wt": "", "/tmp/wt2": "r2-", "/tmp/wt3": "r3-"}[ROOT]
+for d in sorted(glob.glob(ROOT + "/C*.out/seed*")):
     prop = re.search(r"/(C\d+)\.out/", d).group(1)
     k = d[-1]
-    name = "%s-seed%s" % (prop, k)
+    name = "%s-%sseed%s" % (prop, TAG, k)
     res = {}
     rp = "/tmp/val/%s.result" % name
     if os.path.exists(rp):
@@ -42,7 +45,7 @@ for d in sorted(glob.glob("/tmp/wt/C*.out/seed*")):
     }
     if os.path.exists(os.path.join(d, "patch.original.diff")):
         shutil.copy(os.path.join(d, "patch.original.diff"), out)
-        meta["note"] = "patch.diff is the sub-agent's change ported by hand to the current HEAD (the original, patch.original.diff, no longer applied after fix 294819f touched the same lines)"
+        meta["note"] = "patch.diff is the sub-agent's change ported by hand to the current HEAD (the original, patch.original.diff, no longer applied after a later fix: commit touched the same lines)"
     json.dump(meta, open(os.path.join(out, "meta.json"), "w"), indent=1)
     rows.append((name, meta["my_check"]["caught"], meta["my_check"]["with_failing_input"], (m.group(2) if m else "")))
 for r in rows:
